@@ -40,6 +40,18 @@ def x9y(u, v, SR, npts):
     return u * np.ones(int(npts)) + v
 
 
+def istep(level, SR, npts):
+    """a shape that hands back a plain list of ints (a legal return value: the forger converts)"""
+    _rec("istep", (level,), SR, npts)
+    return [int(level)] * int(npts)
+
+
+def icount(level, SR, npts):
+    """a shape that hands back an integer array"""
+    _rec("icount", (level,), SR, npts)
+    return np.full(int(npts), int(level), dtype=np.int64)
+
+
 def _lin2_twin(b, a, SR, npts):
     """a second, different function that is also called `lin2` (as if defined in another module):
     same parameter names, the other order"""
@@ -51,7 +63,7 @@ def _lin2_twin(b, a, SR, npts):
 _lin2_twin.__name__ = "lin2"
 _lin2_twin.__qualname__ = "lin2"
 
-USER = {f.__name__: f for f in (const, lin2, poly4, pi2pulse, x9y)}
+USER = {f.__name__: f for f in (const, lin2, poly4, pi2pulse, x9y, istep, icount)}
 USER["lin2~"] = _lin2_twin
 
 
